@@ -425,6 +425,7 @@ class FuncRun:
         self.acc_records: list = []  # (stmt, value deps, control deps) for accumulating stores
         self.sub_records: list = []  # (stmt, key deps, value deps, receiver origins) for `x[k] = v`
         self.loop_breaks: List[List[Optional[Env]]] = []
+        self.for_stack: List[Tuple[ast.AST, Set[str]]] = []
         self.loop_continues: List[List[Optional[Env]]] = []
         self.param_index = {p.name: p.index for p in f.params}
         self._site_counter = 0
@@ -849,6 +850,7 @@ class FuncRun:
             recv = self.ev(target.value, env)
             k = self.ev(target.slice, env)
             self.store_into(recv, val, st, 'item assignment')
+            self._repeat_store(st, target.slice, value_expr, val)
             self.acc_records.append((st, val.deps | k.deps, env.pdeps))
             self.sub_records.append((st, k.deps, val.deps, recv.origins))
             self.taint_root(target.value, val.deps | k.deps, env)
@@ -980,6 +982,14 @@ class FuncRun:
     def st_For(self, st, env):
         it = self.ev(st.iter, env)
         elem = self.iter_elem(it)
+        stored = {x.id for x in ast.walk(st) if isinstance(x, ast.Name) and isinstance(x.ctx, ast.Store)}
+        self.for_stack.append((st, stored))
+        try:
+            return self._for(st, env, it, elem)
+        finally:
+            self.for_stack.pop()
+
+    def _for(self, st, env, it, elem):
         self.loop_breaks.append([])
         self.loop_continues.append([])
         cur = env
@@ -1587,6 +1597,30 @@ class FuncRun:
             self._repeat_alias(e, e.elt, v)
         inner = set(v.origins) if ty.maybe_mutable(v.types) is not False else set()
         return self.fresh(e, T((kind, v.types)), inner)
+
+    def _repeat_store(self, st, key_expr, value_expr, v: AV):
+        """`for x in xs: d[<key from x>] = obj` where obj is a plain name that the loop never rebinds stores ONE
+        object under several keys; if it is mutable the entries alias each other"""
+        if not self.for_stack or not isinstance(value_expr, ast.Name):
+            return
+        loop, stored = self.for_stack[-1]
+        if value_expr.id in stored:
+            return
+        knames = {x.id for x in ast.walk(key_expr) if isinstance(x, ast.Name)}
+        if not (knames & stored):
+            return  # the same key on every iteration: an overwrite, not several entries
+        # a store that is followed by leaving the loop happens once
+        for blk in ast.walk(loop):
+            body = getattr(blk, 'body', None)
+            for lst in (body, getattr(blk, 'orelse', None)):
+                if isinstance(lst, list) and st in lst:
+                    rest = lst[lst.index(st) + 1:]
+                    if any(isinstance(x, (ast.Break, ast.Return)) for x in rest):
+                        return
+        # only containers: one record object filed under several keys is what an index is
+        hs = ty.heads(v.types)
+        if hs and {h[0] for h in hs} <= {'list', 'dict', 'set', 'counter'} and ty.maybe_mutable(v.types) is True:
+            self.events.append(('repeat_alias', norm_stmt(st), st, ty.fmt_types(v.types)))
 
     def _repeat_alias(self, comp, elt, v: AV):
         """a comprehension whose element does not depend on the comprehension variables stores ONE object at
